@@ -451,15 +451,17 @@ def wiring_body(name, dur, dt_num, dt_den, T=4, y_factor=1.0):
 
         am, ap, au, apar, afp = mr.modules()
         dt = dt_num / dt_den
-        P = gen.make_project(gen.CATALOGUE[name](dur), start=2000.0, end=2000.0 + dt * (T - 1), dt=dt)
+        P = gen.make_project(gen.CATALOGUE[name]() if name == "M7F" else gen.CATALOGUE[name](dur), start=2000.0, end=2000.0 + dt * (T - 1), dt=dt)
         if y_factor != 1.0:
             for pop in P.parsets[0].pars["dur"].y_factor.keys():
                 P.parsets[0].pars["dur"].y_factor[pop] = y_factor
         m = am.Model(P.settings, P.framework, P.parsets[0])
-        # the duration is the parameter's value (databook value x calibration factor, C06)
-        for pop in m.pops:
-            env.claim("duration_parameter_value|%s" % pop.name, env.true(abs(float(pop.par_lookup["dur"].vals[0]) - dur * y_factor) <= 1e-12), key="duration_value")
         durations = {"dur": Fraction(dur).limit_denominator(10**6) * Fraction(y_factor).limit_denominator(1000), "dur2": Fraction(3, 4)}
+        if name == "M7F":
+            durations["dur"] = Fraction(1)  # the framework function 2*base (base = 0.5), not the parameter's own default of 0.25
+        # the duration is the parameter's value (databook value x calibration factor, or its function: C06)
+        for pop in m.pops:
+            env.claim("duration_parameter_value|%s" % pop.name, env.true(abs(float(pop.par_lookup["dur"].vals[0]) - float(durations["dur"] if name == "M7F" else dur * y_factor)) <= 1e-12), key="duration_value")
         env.claim("model_step_is_settings_step", env.true(m.dt == P.settings.sim_dt), key="model_dt")
         ok = True
         for pop in m.pops:
@@ -491,6 +493,34 @@ def wiring_body(name, dur, dt_num, dt_den, T=4, y_factor=1.0):
     return body
 
 
+SPREAD = [(0.5, 0.25), (0.6, 0.25), (1.1, 0.25), (2.0, 0.3), (0.1, 0.25)]
+
+
+def init_spread_body(dur, dt):
+    """The initial occupants of a timed compartment are spread uniformly over its ceil(D/dt) rows, whatever the fractional part
+    of D/dt (symbolic initial size, real Model.__init__/build/initialize_compartments)"""
+
+    def body(env):
+        am, ap, au, apar, afp = mr.modules()
+        P = gen.make_project(gen.CATALOGUE["M7"](dur), start=2000.0, end=2000.0 + 2 * dt, dt=dt)
+        ps = copy.deepcopy(P.parsets[0])
+        with mr.session(env):
+            vals = mr.symbolize_parset(env, ps, P.framework, pars=[], comps=True)
+            m = am.Model(P.settings, P.framework, ps)
+            for pop in m.pops:
+                for c in pop.comps:
+                    if isinstance(c, am.TimedCompartment):
+                        n = c._vals.shape[0]
+                        entered = ps.pars[c.name].ts[pop.name].assumption
+                        tot = 0.0
+                        for r in range(n):
+                            tot = tot + c._vals[r, 0]
+                            env.claim("row_holds_equal_share|%s|r%d" % (c.name, r), env.eq(c._vals[r, 0] * n, entered), key="uniform_initial_spread")
+                        env.claim("rows_add_up_to_entered_size|%s" % c.name, env.eq(tot, entered), key="initial_total")
+
+    return body
+
+
 STUBS = [
     "numpy/math/sciris/scipy in atomica.model, programs, utils, parameters, function_parser -> vsym shims",
     "merge points as in the kernel groups; Population.initialize_compartments merged; Model.update_links per-parameter loop outlined",
@@ -516,9 +546,9 @@ def specs(prop, tier):
         if prop == "C03" and q:
             lst.remove(("M1", 3, dict(pops=2, transfers=1)))  # 6 min of nonlinear queries with the extra transfer outflow on every compartment: thorough tier
         if prop in ("C01", "C02"):
-            lst += [("M5", 3, dict(junction_init=True)), ("M5R", 3, dict(junction_init=True)), ("M8", 4, {}), ("M8J", 4, {})] if q else [("M5R", 3, dict(junction_init=True)), ("M8J", 4, {}), ("M8R", 4, {})]
+            lst += [("M5", 3, dict(junction_init=True)), ("M5C", 3, dict(junction_init=True)), ("M5R", 3, dict(junction_init=True)), ("M8", 4, {}), ("M8J", 4, {})] if q else [("M5R", 3, dict(junction_init=True)), ("M8J", 4, {}), ("M8R", 4, {})]
     elif prop == "C04":
-        lst = [("M4", 3, dict(junction_init=True)), ("M5F", 3, dict(junction_init=True)), ("M5", 3, dict(junction_init=True)), ("M5R", 3, dict(junction_init=True)), ("M6", 3, dict(junction_init=True)), ("M8", 4, {}), ("M8J", 4, {}), ("M12", 3, dict(junction_init=True))]
+        lst = [("M4", 3, dict(junction_init=True)), ("M5C", 3, dict(junction_init=True)), ("M5F", 3, dict(junction_init=True)), ("M5", 3, dict(junction_init=True)), ("M5R", 3, dict(junction_init=True)), ("M6", 3, dict(junction_init=True)), ("M8", 4, {}), ("M8J", 4, {}), ("M12", 3, dict(junction_init=True))]
         if not q:
             lst += [("M8R", 4, {})]
     elif prop == "C05":
@@ -541,7 +571,7 @@ def specs(prop, tier):
     return out
 
 
-WIRING = [("M7", 0.5, 1, 12, 1.0), ("M7", 0.25, 1, 12, 1.0), ("M8", 0.5, 1, 52, 1.0), ("M7", 0.3, 1, 10, 1.0), ("M7", 2.0, 1, 4, 1.0), ("M7", 0.02, 1, 12, 1.0), ("M7", 0.5, 1, 4, 2.0), ("M8", 0.75, 1, 4, 0.5), ("M8R", 0.5, 1, 4, 1.0), ("M8B", 0.5, 1, 4, 1.0), ("M8J", 0.5, 1, 4, 1.0)]
+WIRING = [("M7", 0.5, 1, 12, 1.0), ("M7", 0.25, 1, 12, 1.0), ("M8", 0.5, 1, 52, 1.0), ("M7", 0.3, 1, 10, 1.0), ("M7", 2.0, 1, 4, 1.0), ("M7", 0.02, 1, 12, 1.0), ("M7", 0.5, 1, 4, 2.0), ("M8", 0.75, 1, 4, 0.5), ("M8R", 0.5, 1, 4, 1.0), ("M8B", 0.5, 1, 4, 1.0), ("M8J", 0.5, 1, 4, 1.0), ("M7F", 0.25, 1, 4, 1.0)]
 
 
 def groups(prop, tier):
@@ -556,6 +586,16 @@ def groups(prop, tier):
 
             gw.__name__ = nm
             gs.append(gw)
+    if prop == "C05":
+        for dur, dt in SPREAD:
+            nm = "init_spread[D=%g;dt=%g]" % (dur, dt)
+            body = init_spread_body(dur, dt)
+
+            def gi(tier_, seed, _body=body, _nm=nm, _b=dict(D=dur, dt=dt)):
+                return run_body(_body, _nm, tier_, seed, functions=_funcs(), bounds=dict(_b, values="initial sizes <= 1e6"), stubs=STUBS[:1], timeout_ms=60000, declared_exceptions=("BadInitialization",))
+
+            gi.__name__ = nm
+            gs.append(gi)
     for nm, kw in specs(prop, tier):
         body = step_body(want={prop}, **kw)
 
@@ -571,6 +611,9 @@ def replay(prop, rec):
     for name, dur, a, b, yf in WIRING:
         if rec["replay"]["group"] == "wiring[%s;D=%g;dt=%d/%d%s]" % (name, dur, a, b, ";y_factor=%g" % yf if yf != 1.0 else ""):
             return replay_body(wiring_body(name, dur, a, b, y_factor=yf), rec["model"], rec["replay"]["claim"])
+    for dur, dt in SPREAD:
+        if rec["replay"]["group"] == "init_spread[D=%g;dt=%g]" % (dur, dt):
+            return replay_body(init_spread_body(dur, dt), rec["model"], rec["replay"]["claim"])
     for nm, kw in specs(prop, "thorough") + specs(prop, "quick"):
         if nm == rec["replay"]["group"]:
             return replay_body(step_body(want={prop}, **kw), rec["model"], rec["replay"]["claim"])
